@@ -108,6 +108,9 @@ func audit(F *facts, line, res string) []problem {
 	if len(fs) < 2 || fs[0] != "C19" {
 		return nil
 	}
+	if fs[1] == "probe" {
+		return auditProbe(res)
+	}
 	kind := fs[1]
 	toks := fs[2:]
 	for _, t := range toks {
@@ -169,6 +172,24 @@ func audit(F *facts, line, res string) []problem {
 	// frame expectations (relational, no reference): the dump a register must
 	// show as long as no op targets it; set by D observations, carried by clone.
 	frame := map[int]string{}
+	// parsing is a function of the text (relational, no reference): prov[r] names the parse
+	// (entry point + text) whose result register r holds, as long as no op targets r; it is
+	// carried by clone. image / status: what that parse showed the first time in this line.
+	prov := map[int]string{}
+	image := map[string]string{}
+	status := map[string]string{}
+	parsed := func(pos int, t, key, st string, r int) {
+		if old, ok := status[key]; ok && old != st {
+			add("parse-function", fmt.Sprintf("op %d %s: parsing the same text was %s before in this line and is %s now", pos, t, old, st))
+		}
+		status[key] = st
+		prov[r] = key
+	}
+	sameParse := func(i, j int) bool {
+		a, ok1 := prov[i]
+		b, ok2 := prov[j]
+		return ok1 && ok2 && a == b
+	}
 
 	for pos, t := range toks {
 		f := strings.Split(t, ":")
@@ -182,8 +203,14 @@ func audit(F *facts, line, res string) []problem {
 				} else {
 					delete(frame, tg)
 				}
+				if p, ok := prov[src]; ok {
+					prov[tg] = p
+				} else {
+					delete(prov, tg)
+				}
 			} else {
 				delete(frame, tg)
+				delete(prov, tg)
 			}
 		}
 		switch f[0] {
@@ -225,6 +252,9 @@ func audit(F *facts, line, res string) []problem {
 			}
 			if r == r2 && o != "0" {
 				add("order-laws", fmt.Sprintf("op %d %s: not reflexive", pos, t))
+			}
+			if sameParse(r, r2) && o != "0" {
+				add("parse-function", fmt.Sprintf("op %d %s: two untouched results (or clones) of parsing the same text compare %s", pos, t, o))
 			}
 		case "g":
 			r, _ := regIdx(f[1])
@@ -279,6 +309,7 @@ func audit(F *facts, line, res string) []problem {
 			if o == "ok" {
 				regs[r].opaque = true
 			}
+			parsed(pos, t, f[0]+":"+f[2], o, r)
 		case "rt":
 			r, _ := regIdx(f[1])
 			r2, _ := regIdx(f[2])
@@ -307,6 +338,9 @@ func audit(F *facts, line, res string) []problem {
 					probs = append(probs, problem{oracle, fmt.Sprintf("op %d %s: contents %s written as %q read back: %s", pos, t, src.dump(kind), text, strings.Join(parts[1:], ":")), class})
 				}
 			}
+			if len(parts) >= 2 {
+				parsed(pos, t, "p:"+parts[0], parts[1], r2)
+			}
 			switch {
 			case good:
 				regs[r2] = src.clone()
@@ -327,6 +361,9 @@ func audit(F *facts, line, res string) []problem {
 			}
 			declared := isIn(kf.AllKeys, int64(k))
 			regs[r] = newRef()
+			if i := strings.LastIndex(o, ":"); i >= 0 {
+				parsed(pos, t, "q:"+o[:i], o[i+1:], r)
+			}
 			if strings.HasSuffix(o, ":ok") {
 				if !declared {
 					regs[r].opaque = true
@@ -354,6 +391,9 @@ func audit(F *facts, line, res string) []problem {
 					}
 					if !a.opaque && !b.opaque && (at(i, j) == '=') != a.equal(b) {
 						add("equal-iff-same", fmt.Sprintf("op %d %s: (%d,%d) is %c but reference contents equal=%v", pos, t, i, j, at(i, j), a.equal(b)))
+					}
+					if sameParse(i, j) && at(i, j) != '=' {
+						add("parse-function", fmt.Sprintf("op %d %s: registers %d and %d hold untouched results (or clones) of parsing the same text %s but compare %c", pos, t, i, j, prov[i], at(i, j)))
 					}
 				}
 			}
@@ -383,6 +423,13 @@ func audit(F *facts, line, res string) []problem {
 					add("clone-independent", fmt.Sprintf("op %d %s: register %d shows %s, but no op wrote it since it showed (or was cloned from a register showing) %s", pos, t, i, ds[i], want))
 				}
 				frame[i] = ds[i]
+				if key, ok := prov[i]; ok {
+					if img, seen := image[key]; seen && img != ds[i] {
+						add("parse-function", fmt.Sprintf("op %d %s: register %d holds the untouched result of parsing %s and shows %s, but the same parse showed %s earlier in this line", pos, t, i, key, ds[i], img))
+					} else if !seen {
+						image[key] = ds[i]
+					}
+				}
 			}
 		default:
 			return probs
